@@ -2,4 +2,4 @@
 # dev helper: verify the given contract keys with every contract module loaded; print a summary only
 cd "$(dirname "$0")/.."
 M=$(ls contracts/c_*.py | xargs -n1 basename | sed 's/.py//' | tr '\n' ',' | sed 's/,$//')
-PYTHONHASHSEED=0 python3-vt -m pyvc.run $M "$@" 2>&1 | grep -E "^==|refuted|unknown|Error|vacuous|disag" | sed -E 's/^ +(refuted|unknown)[ 0-9.s]+[^ ]*:([^:]+:[^:]+:[^#]*)#[0-9]+.*/   \1 \2/' | sort | uniq -c | sort -k2 | cut -c1-240
+PYTHONHASHSEED=0 python3-vt -m pyvc.run $M "$@" 2>&1 | grep -E "^==|^!!|refuted|unknown|Error|vacuous|disag" | sed -E 's/^ +(refuted|unknown)[ 0-9.s]+[^ ]*:([^:]+:[^:]+:[^#]*)#[0-9]+.*/   \1 \2/' | sort | uniq -c | sort -k2 | cut -c1-240
